@@ -468,7 +468,21 @@ async def scenario(world: WorldA) -> None:
                     for r in world.net.history:
                         if r.verb == "HELLO" and r.src[0] == SPA_IP:
                             delivered += sum(1 for (es, t) in r.deliveries if any(a - 1e-6 <= t <= b + 1e-6 for a, b in locs))
-                    sig += ":discovery-starved" if delivered == 0 else ":although-hello-replies-arrived"
+                    # (a reply that reached the endpoint but was never taken from its receive queue before the pass ended -- the event loop was
+                    #  stalled over the end of the discovery -- starved the discovery just the same)
+                    handled = 0
+                    for q in sysm.queues.values():
+                        for it in q.items:
+                            if it["item"][0].startswith(b"<HELLO>") and it["item"][1][0] == SPA_IP:
+                                handled += sum(1 for pp in it["pops"] if any(a - 1e-6 <= pp["t"] <= b + 1e-6 for a, b in locs))
+                    ignored_long = False
+                    for q in sysm.queues.values():
+                        for it in q.items:
+                            if it["item"][0].startswith(b"<HELLO>") and it["item"][1][0] == SPA_IP and not it["pops"]:
+                                for a, b in locs:
+                                    if a - 1e-6 <= it["put_t"] <= b + 1e-6 and (b - it["put_t"]) - world.clock.stall_between(it["put_t"], b) > 0.5:
+                                        ignored_long = True        # it waited in the queue for half a second of un-stalled time and nobody took it
+                    sig += ":discovery-starved" if (delivered == 0 or (handled == 0 and not ignored_long)) else ":although-hello-replies-arrived"
                     # ... and did that pass keep asking for the whole discovery timeout before it gave up?
                     disc = table_max(tables, "DISCOVERY_TIMEOUT_IN_SECONDS")
                     if locs and (locs[-1][1] - locs[-1][0]) < disc - 0.3 - world.clock.stall_between(locs[-1][0], locs[-1][1]):
